@@ -16,19 +16,19 @@ CLAIMED = {
     "C05": ("Entry contract on Gateway.logic and set_child_value: per message kind the returned line / the queued line / the jobs handed to the transport are exactly the prescribed ones (req, config, time, id request, gateway ready, unknown node/child, silence otherwise) and every returned line is canonical, decodes to a message valid for the version and is addressed to the inbound node or broadcast.", _GW_NOTE + " Clock: time.localtime is an uninterpreted input.", TECH),
     "C06": ("_get_next_id / add_sensor / logic(id request): every id carried by an id response lies in 1..254, was unknown before and is reserved at once; no response when none is available; known nodes never disappear; the reservation is marked for saving; save_sensors' contract (a failed save leaves the state marked unsaved) for the restart clause, which otherwise rests on C11/C14.", _GW_NOTE + " Restart step: assumed json/pickle round trip.", TECH),
     "C07": ("Entry contracts on logic (2.0-2.2) and set_child_value: nothing returned for sending is addressed to a sleeping node (stream excepted), jobs reach the transport only in a wake-up burst or for a node that is awake, withheld lines are appended to the node's queue and queues only empty at that node's wake-up; awake nodes never get anything queued; I-queue (what is withheld for a node is addressed to it) and jobs-addressed: everything handed to the transport while a line is processed is a command for the sender of that line.", _GW_NOTE + " The pump-level 'burst directly follows' is the ordering obligation of C19 (known finding F8).", TECH),
-    "C08": ("Loop invariants of the wake-up flush (decomposition form sent0++queue0 = sent++queue; one set command per due (child, value type) counted in ghost state), desired values kept until the node reports exactly that value type, value requests answered with the pending value (C05), and set_child_value refuses undeliverable values at call time (I-desired preserved).", _GW_NOTE, TECH),
-    "C09": ("prepare_fw (padding loop invariant, blocks, CRC over the served data), fw_int_to_hex / fw_hex_to_int (little-endian 16-bit header, round-trip lemma), respond_fw (echo of type/version/index + the 16 bytes of the block, firmware untouched) and the induction step 'blocks concatenate to data' are discharged for images of symbolic length and content.", "Trusted: crcmod 'modbus' = CRC-16/MODBUS (T-crc, bounded audit), IntelHex loader (T-ihex, bounded audit only: the Intel-HEX clause is a bounded stand-in, not proved), struct/binascii laws.", TECH),
+    "C08": ("Loop invariants of the wake-up flush (decomposition form sent0++queue0 = sent++queue; one set command per due (child, value type) counted in ghost state), desired values kept until the node reports exactly that value type, value requests answered with the pending value (C05), and set_child_value refuses undeliverable values at call time (I-desired preserved); what is withheld between two wake-ups joins the node's queue at its end (the insertion half of 'oldest first').", _GW_NOTE, TECH),
+    "C09": ("prepare_fw (padding loop invariant, blocks, CRC over the served data), fw_int_to_hex / fw_hex_to_int (little-endian 16-bit header, round-trip lemma), respond_fw (echo of type/version/index + the 16 bytes of the block, firmware untouched) and the induction step 'blocks concatenate to data' are discharged for images of symbolic length and content; load_fw is under contract around the Intel-HEX library (one fresh decoder, the named file once, the whole decoded image or None).", "Trusted: crcmod 'modbus' = CRC-16/MODBUS (T-crc, bounded audit), IntelHex loader (T-ihex, bounded audit only: the Intel-HEX clause is a bounded stand-in, not proved), struct/binascii laws.", TECH),
     "C10": ("Entry contract on logic for stream/set/presentation plus make_update: malformed or foreign requests change nothing, config is answered in requested/offered and withheld while fetching, block requests move the node to fetching, replies are exactly the packed header + block, sets are answered with reboot from the update call until the next node presentation, update calls restart the session of exactly the named known nodes.", _GW_NOTE, TECH),
     "C11": ("The repository's JSON hooks (MySensorsJSONEncoder.default, MySensorsJSONDecoder.dict_to_object incl. digit-key restoration) and pickle state hooks (Sensor.__getstate__/__setstate__, ChildSensor.__setstate__) are under contract: encode-then-decode restores every persisted attribute exactly for symbolic attribute values, emits exactly the persisted keys, and resets the transient fields; both formats restore the same attributes.", "Trusted (heavy): json / pickle do the recursion - they call default for every Sensor/ChildSensor, object_hook bottom-up on every dict, stringify keys, and round-trip dict/list/str/int/None (T-json, T-pickle). Digit-key restoration is shape-bounded (0..3 entries).", TECH),
     "C17": ("parse_message_to_mqtt / parse_mqtt_to_message under contract (topic = /n/c/t/a/s, qos = ack; accepted iff the topic is the inbound prefix followed by its last five levels), the publish-then-receive round-trip lemma for every prefix (also prefixes that look like levels) from the split/join laws, init_topics via the comprehension law (set/req topics of every restored child, stream topic of its node, the two wildcards), and MQTTTransport.send / handle_subscription: a raising callback never escapes.", "Trusted: text laws incl. split(x ++ '/' ++ y) = split(x) ++ split(y) (T-str); topics handed to handle_subscription have the gateway's own shape.", TECH),
     "C12": ("Crash-Hoare obligations on the real save_sensors/_save_json/_save_pickle over a ghost file system: at every file-operation boundary and at every injected single fault, every state a crash can leave (with and without loss of unsynced data, any prefix of pending directory operations) recovers - by the contract of safe_load_sensors - to the complete old or the complete new state; a failed save keeps need_save; the next save succeeds. All five prior on-disk configurations, both formats.", "Trusted: the ghost file system (atomic rename, ordered metadata, durability only by fsync) T-fs; json/pickle dump as 'zero or more writes then complete'.", TECH),
     "C13": ("safe_load_sensors under contract over arbitrary file content: for main/backup absent/good/damaged (damaged = the decoder raises any class of its assumed set) nothing escapes and exactly one complete saved state or nothing is merged.", "Trusted: the exception classes json.load / pickle.load raise on damaged input (T-json, T-pickle; audited on all truncations natively, bounded).", TECH),
-    "C14": ("I-save on logic (persisted view changed => need_save, never cleared by message processing) for all versions/kinds, save_sensors' contract, and SyncTasks.stop / AsyncTasks.stop: disconnect first, cancel the timer, then exactly one save; the persisted state is the new one.", _GW_NOTE + " T-fs, T-json, T-pickle for what a load returns.", TECH),
-    "C15": ("schedule_save (threaded) re-arms its timer on every exit and save_on_schedule (asyncio, loop cut at its invariant) ends only by cancellation, for a save that may fail with OSError or RuntimeError at any point; save_sensors' exceptional postcondition keeps need_save and a recoverable file (C12).", "Trusted: threading.Timer / asyncio loop models (spawned callbacks run later, once).", TECH),
+    "C14": ("I-save on logic (persisted view changed => need_save, never cleared by message processing) for all versions/kinds, save_sensors' contract, and SyncTasks.stop / AsyncTasks.stop: disconnect first, cancel the timer, then exactly one save; the persisted state is the new one; save_sensors under the rely 'the pump handles a state-changing report between any two file operations of the save' guarantees that the flag is clear at return only if the file holds the state held then (finding F21, fixed).", _GW_NOTE + " T-fs, T-json, T-pickle for what a load returns.", TECH),
+    "C15": ("schedule_save (threaded) re-arms its timer on every exit and save_on_schedule (asyncio, loop cut at its invariant) ends only by cancellation, for a save that may fail with OSError or RuntimeError at any point; save_sensors' exceptional postcondition keeps need_save and a recoverable file (C12); a report racing with the save is never marked saved (save_sensors.concurrent-report; finding F21, fixed), so the next attempt persists the then-current state.", "Trusted: threading.Timer / asyncio loop models (spawned callbacks run later, once).", TECH),
     "C16": ("Rely/guarantee obligations on Transport.send / SyncTransport.send: every read of transport.protocol and protocol.transport is a fresh read under the rely (connection lost, user disconnect, new connection at any point, any number of times): nothing escapes, at most one write of the whole command; one pump iteration pops the head, runs it once and sends exactly its reply (FIFO) while producers append.", "Trusted: attribute load/store and deque operations atomic under the GIL (T-dict); a write on a closed connection completes or raises OSError (T-serial).", TECH),
     "C18": ("Keyword flow along the real MRO of all six gateway classes for every subset of the documented options (accepted, and each option honoured) and get_const / safe_is_version / is_sensor against ver.floor for symbolic numeric versions major.minor[.patch].", "Trusted: AwesomeVersion abstraction (numeric, section by section; canonical decimal spelling) T-aw, audited on a grid.", TECH),
     "C19": ("Packetizer.data_received (dependency code under contract) loop invariant: received = packets each followed by the terminator ++ buffer, no terminator left; uniqueness lemma of that decomposition (chunking independence); one logic job per packet after framing; AsyncTasks.add_job runs and sends at once; one SyncTasks pump iteration is FIFO/exactly-once; TCPTransport.run (threaded TCP reader loop): every received chunk handed to data_received exactly once, connection_lost exactly once with the ending error.", "Trusted: T-serial (chunks delivered in order), z3 sequence theory for bytes. The cross-line emission order of the threaded flavour differs from asyncio (known finding F8).", TECH),
-    "C20": ("Per-call exactness of _connection_made/_connection_lost and behavioural subtyping of the three connection_lost overrides (callback exactly once with the cause, reconnect iff the loss was not requested), the reconnect callbacks the transports install (every loss starts exactly one reconnect), the four connect loops per iteration (a failed attempt is followed by exactly one sleep of reconnect_timeout; a new TCP link starts with both watchdog timers stamped), the threaded TCP reader loop (connection_lost exactly once with the cause, watchdog consulted every iteration), stop() disconnects first, and check_connection/_handle_i_version exact in linear real arithmetic over an uninterpreted non-decreasing clock.", "Trusted: T-serial, T-time. The positive watchdog claim is proved as an inductive invariant under a stated slack (answer latency + loop period <= reconnect_timeout); without slack it fails (known finding F20w). Not decided: liveness, thread/asyncio scheduling, the bound on re-dialling.", TECH),
+    "C20": ("Per-call exactness of _connection_made/_connection_lost and behavioural subtyping of the three connection_lost overrides (callback exactly once with the cause, reconnect iff the loss was not requested), the reconnect callbacks the transports install (every loss starts exactly one reconnect), the four connect loops per iteration (a failed attempt is followed by exactly one sleep of reconnect_timeout; a new TCP link starts with both watchdog timers stamped; a threaded loop whose user stops the gateway during the retry wait returns without a further attempt, reader thread or callback), the threaded TCP reader loop (connection_lost exactly once with the cause, watchdog consulted every iteration), stop() disconnects first, and check_connection/_handle_i_version exact in linear real arithmetic over an uninterpreted non-decreasing clock.", "Trusted: T-serial, T-time. The positive watchdog claim is proved as an inductive invariant under a stated slack (answer latency + loop period <= reconnect_timeout); without slack it fails (known finding F20w). Not decided: liveness, thread/asyncio scheduling, the bound on re-dialling.", TECH),
     "C03": (
         "For every version and every header cell (command -1..5 x sub-type -1..max+2, enumerated completely) the real body of Message.validate - including the live voluptuous validator objects of the version tables and the repository's validator functions - is symbolically executed with node id, child id, ack and payload symbolic, and both directions 'accepted => api.valid' and 'rejected => not api.valid' are discharged; api.valid is an independent table-driven spec written from the property statement. The finite table conditions are decided by exhaustive evaluation of the live tables.",
         "Trusted: my semantics of voluptuous All/Any/Coerce/Range/In/literals/Schema(Object) (T-vol), the AwesomeVersion abstraction (T-aw), int()/float()/unhexlify as uninterpreted functions shared by code and spec (T-str, T-hex), the spec tables (T-spec).",
